@@ -708,6 +708,9 @@ def _coerce_to_pattern_ast_Dict(
             if (rest := value.id) == '_':
                 return "'**' key cannot be '_'"
 
+            if is_FST:
+                value.f._unparenthesize_grouping(False)  # cannot have pars
+
             continue
 
         elif rest:
@@ -757,10 +760,10 @@ def _coerce_to_pattern_ast_Call(
     func = ast.func
     func_cls = func.__class__
 
-    if func_cls is Attribute:
-        if is_FST:
-            func.f._unparenthesize_grouping(False)  # cannot have pars
+    if is_FST and func_cls in (Attribute, Name):
+        func.f._unparenthesize_grouping(False)  # cannot have pars
 
+    if func_cls is Attribute:
         res = _coerce_to_pattern_ast_Attribute(func, is_FST, options, parse_params)  # we call this just to validate and remove parentheses if present
 
         if isinstance(res, str):
@@ -880,6 +883,20 @@ def _coerce_to_pattern_ast_BinOp(
     if right.__class__ is Starred:
         return 'cannot have Starred'
 
+    left = ast.left
+
+    if left.__class__ is Starred:
+        return 'cannot have Starred'
+
+    pat_left = _AST_COERCE_TO_PATTERN_FUNCS.get(
+        left.__class__, _coerce_to_pattern_ast_ret_empty_str)(left, is_FST, options, parse_params)  # left before right because removing parentheses on the left moves the right and the new pattern nodes are not part of the tree yet
+
+    if isinstance(pat_left, str):
+        return pat_left
+
+    pat_left = pat_left[0]
+    pat_left_cls = pat_left.__class__
+
     pat_right = _AST_COERCE_TO_PATTERN_FUNCS.get(
         right.__class__, _coerce_to_pattern_ast_ret_empty_str)(right, is_FST, options, parse_params)
 
@@ -887,19 +904,6 @@ def _coerce_to_pattern_ast_BinOp(
         return pat_right
 
     pat_right = pat_right[0]
-    left = ast.left
-
-    if left.__class__ is Starred:
-        return 'cannot have Starred'
-
-    pat_left = _AST_COERCE_TO_PATTERN_FUNCS.get(
-        left.__class__, _coerce_to_pattern_ast_ret_empty_str)(left, is_FST, options, parse_params)
-
-    if isinstance(pat_left, str):
-        return pat_left
-
-    pat_left = pat_left[0]
-    pat_left_cls = pat_left.__class__
 
     if pat_left_cls is MatchOr and not (is_FST and left.f.pars().n):
         patterns = [*pat_left.patterns, pat_right]
